@@ -19,6 +19,7 @@ with "strict" versions of those operations that fail outside their domain:
 import Geodesy.Model.Proj
 import Geodesy.Model.Num.Angular
 import Geodesy.Props.C04
+import Geodesy.Model.Ops.Tmerc
 
 namespace Geodesy
 namespace C09
@@ -100,6 +101,31 @@ theorem chase_total (globals locals : PMap) (key : Str) : chase globals locals k
 
 example : remove? [1, 2, 3] 3 = none ∧ remove? [1, 2, 3] 2 = some [1, 2] := by decide
 example : insert? ([] : List Nat) 1 7 = none ∧ insert? ([] : List Nat) (min 1 0) 7 = some [7] := by decide
+
+/-- **`utm zone=Z` with `Z` outside 1 … 60 is refused with an error value** — whatever `Z` is (0, 61, 2^64 − 1): the
+zone is compared as a natural number before any arithmetic is done on it -/
+theorem utm_zone_outside_range_refused {R : Type} [Scalar R] (ce : Ops.CtorEnv) (raw : RawParameters) (p : Parsed R) (zone : Nat)
+    (hp : Parsed.new (R := R) ce.ellpsKnown raw Ops.Tmerc.utmGamut = .ok p) (hz : p.natural? (Text.S "zone") = some zone)
+    (hbad : zone = 0 ∨ 61 ≤ zone) :
+    Ops.Tmerc.utmNew R ce raw = .error .general := by
+  have hcond : (!(decide (1 ≤ zone) && decide (zone < 61))) = true := by
+    rcases hbad with h | h
+    · subst h; simp
+    · have : ¬ zone < 61 := by omega
+      simp [this]
+  simp only [Ops.Tmerc.utmNew, hp, hz]
+  simp [hcond]
+
+/-- ... and inside the range it is accepted -/
+theorem utm_zone_in_range_accepted {R : Type} [Scalar R] (ce : Ops.CtorEnv) (raw : RawParameters) (p : Parsed R) (zone : Nat)
+    (hp : Parsed.new (R := R) ce.ellpsKnown raw Ops.Tmerc.utmGamut = .ok p) (hz : p.natural? (Text.S "zone") = some zone)
+    (h1 : 1 ≤ zone) (h2 : zone ≤ 60) :
+    ∃ n, Ops.Tmerc.utmNew R ce raw = .ok n := by
+  have hcond : (!(decide (1 ≤ zone) && decide (zone < 61))) = false := by
+    have : zone < 61 := by omega
+    simp [h1, this]
+  simp only [Ops.Tmerc.utmNew, hp, hz]
+  simp [hcond]
 
 end C09
 end Geodesy
